@@ -7,23 +7,25 @@ structure DS where
   nextVal : Nat := 100
   holders : List Nat := []      -- values whose context was handed out, in order
   waiting : Nat := 0
+  failAcq : Option Nat := none   -- the next acquire script on this key fails with a server error
 
 def runningIdx (s : Sys) (v : Nat) : List Nat := (List.range s.n).filter fun i => (s.hs v).mons i == .running
 
 /-- one attempt of `try` with value `v` on the canonical schedule: keys in order, nothing is
 attempted after the first refusal; success = `ret`, failure = cancel and let the monitors clean up -/
-def attempt (s : Sys) (v : Nat) (force : Bool) : Sys × Bool :=
-  let (s1, _) := (List.range s.n).foldl (fun (acc : Sys × Bool) i =>
-    let (t, failed) := acc
-    if failed then (next t (.skip v i), true)
-    else if force then (next t (.force v i), false)
-    else if t.regs i = none then (next t (.acq v i), false)
-    else (next t (.acq v i), true)) (s, false)
+def attempt (s : Sys) (v : Nat) (force : Bool) (failAcq : Option Nat) : Sys × Bool × Option Nat :=
+  let (s1, _, fa) := (List.range s.n).foldl (fun (acc : Sys × Bool × Option Nat) i =>
+    let (t, failed, fa) := acc
+    if failed then (next t (.skip v i), true, fa)
+    else if fa == some i then (next t (.acqErr v i), false, none)   -- an error, not ErrNotLocked: the next keys are tried
+    else if force then (next t (.force v i), false, fa)
+    else if t.regs i = none then (next t (.acq v i), false, fa)
+    else (next t (.acq v i), true, fa)) (s, false, failAcq)
   let s2 := next s1 (.ret v)
-  if live s2 v then (s2, true)
+  if live s2 v then (s2, true, fa)
   else
     let s3 := next s2 (.release v)
-    ((runningIdx s3 v).foldl (fun t i => next t (.mon v i)) s3, false)
+    ((runningIdx s3 v).foldl (fun t i => next t (.mon v i)) s3, false, fa)
 
 /-- every monitor that has something to do (context cancelled, or its key is no longer ours) runs -/
 def monitorsOnce (s : Sys) (vals : List Nat) : Sys :=
@@ -37,9 +39,9 @@ def settleLoop (d : DS) : Nat → DS
     -- waiters retry (a retry that is refused leaves no trace)
     let (d2, changed) := (List.range d.waiting).foldl (fun (acc : DS × Bool) _ =>
       let (x, ch) := acc
-      let (t, ok) := attempt x.sys x.nextVal false
-      if ok then ({ x with sys := t, nextVal := x.nextVal + 1, holders := x.holders ++ [x.nextVal], waiting := x.waiting - 1 }, true)
-      else ({ x with sys := t, nextVal := x.nextVal + 1 }, ch)) ({ d with sys := s1 }, false)
+      let (t, ok, fa) := attempt x.sys x.nextVal false x.failAcq
+      if ok then ({ x with sys := t, nextVal := x.nextVal + 1, holders := x.holders ++ [x.nextVal], waiting := x.waiting - 1, failAcq := fa }, true)
+      else ({ x with sys := t, nextVal := x.nextVal + 1, failAcq := fa }, ch || fa != x.failAcq)) ({ d with sys := s1 }, false)
     let liveBefore := d.holders.filter (fun v => live d.sys v)
     let liveAfter := d2.holders.filter (fun v => live d2.sys v)
     if changed || liveBefore != liveAfter || (d2.holders.any fun v => (runningIdx d2.sys v).any fun i =>
@@ -74,11 +76,13 @@ def step (d : DS) (ws : List String) : DS × String :=
     let s' := { d.sys with regs := upd d.sys.regs i r' }
     ({ d with sys := s' }, rep ++ " " ++ ownersStr s')
   | "try" :: _ =>
-    let (t, ok) := attempt d.sys d.nextVal false
-    fin { d with sys := t, nextVal := d.nextVal + 1, holders := if ok then d.holders ++ [d.nextVal] else d.holders }
+    let (t, ok, fa) := attempt d.sys d.nextVal false d.failAcq
+    fin { d with sys := t, nextVal := d.nextVal + 1, holders := if ok then d.holders ++ [d.nextVal] else d.holders, failAcq := fa }
   | "force" :: _ =>
-    let (t, ok) := attempt d.sys d.nextVal true
-    fin { d with sys := t, nextVal := d.nextVal + 1, holders := if ok then d.holders ++ [d.nextVal] else d.holders }
+    let (t, ok, fa) := attempt d.sys d.nextVal true d.failAcq
+    fin { d with sys := t, nextVal := d.nextVal + 1, holders := if ok then d.holders ++ [d.nextVal] else d.holders, failAcq := fa }
+  | ["failacq", i] => fin { d with failAcq := some (i.toNat?.getD 0) }
+  | ["extset", i] => fin { d with sys := next d.sys (.extset (i.toNat?.getD 0) 0) }
   | "with" :: _ => fin { d with waiting := d.waiting + 1 }
   | ["release"] =>
     match d.holders.find? (fun v => live d.sys v) with
